@@ -217,6 +217,24 @@ def cases(tier):
             many.append(items.frame_item(f"unk/{k}", items.unknown_payload(4 + k % 5, 4008, k)))
     out.append(mk(many, "bytesio"))
     out.append(mk(many, "sock:4096"))
+    # long runs of items the reader skips (thousands of NMEA sentences / UBX frames / noise bytes in
+    # a row, no RTCM3 frame between them) followed by frames: the work done per skipped item must
+    # not accumulate (nesting depth, per-item memory)
+    talkers = list(items.NMEA_TALKERS)
+    for count in (1500, 5000):
+        runs = {
+            "nmea": [{"name": "nm", "data": items.nmea(talkers[i % len(talkers)]), "kind": "skip"} for i in range(count)],
+            "ubx": [{"name": "ub", "data": items.ubx(bytes([i & 0x7F | 1, 7])), "kind": "skip"} for i in range(count)],
+            "mixed": [({"name": "nm", "data": items.nmea(talkers[i % len(talkers)]), "kind": "skip"} if i % 2 else
+                       {"name": "ub", "data": items.ubx(b"\x01" * (i % 5)), "kind": "skip"}) for i in range(count)],
+            "noise": [{"name": "nz", "data": bytes([1 + i % 0x20]), "kind": "skip"} for i in range(count * 4)],
+        }
+        for nm, run_items in runs.items():
+            for kind in ("bytesio", "sock:4096") if count == 1500 else ("bytesio",):
+                c = mk([a] + run_items + [b, a], kind)
+                c["name"] = f"F+{count}x{nm}+F+F"
+                c["names"] = ["F", nm, "F", "F"]
+                out.append(c)
     # a UBX frame of the maximum length whose header ends exactly on a receive boundary
     big = {"name": "ubx65535", "data": items.ubx(bytes((i * 7 + 3) & 0x7F | 0x01 for i in range(65535))),
            "kind": "skip"}
